@@ -37,7 +37,8 @@ LOCK_TEXT = {"absent": None, "valid_ahead": core.lock_text(LOCKVAL), "corrupt": 
 
 
 def expected(p):
-    uc, st, ex, lk, mode, tree = p
+    uc, st, ex, lk, mode, tree = p[:6]
+    LOCKVAL = p[6] if len(p) > 6 else 1000
     cache = uc != "false"
     structured = st == "true"
     exts = {"omitted": ["rs"], "rs": ["rs"], "rs+x": ["rs", "x"], "x": ["x"]}[ex]
@@ -59,7 +60,7 @@ def expected(p):
 
 
 def config_text(p, source_dir="src"):
-    uc, st, ex, lk, mode, tree = p
+    uc, st, ex, lk, mode, tree = p[:6]
     return core.make_config(source_dir=source_dir,
                             use_cache=None if uc == "omitted" else (uc == "true"),
                             structured=None if st == "omitted" else (st == "true"),
@@ -67,7 +68,8 @@ def config_text(p, source_dir="src"):
 
 
 def run_point(built, p):
-    uc, st, ex, lk, mode, tree = p
+    uc, st, ex, lk, mode, tree = p[:6]
+    LOCKVAL = p[6] if len(p) > 6 else 1000
     exp = expected(p)
     v = []
     with core.Box(tag="c16") as box:
@@ -76,7 +78,7 @@ def run_point(built, p):
         cfg = box.write("Breadlog.yaml", config_text(p))
         lockp = os.path.join(box.proj, "Breadlog.lock")
         if LOCK_TEXT[lk] is not None:
-            open(lockp, "w").write(LOCK_TEXT[lk])
+            open(lockp, "w").write(core.lock_text(LOCKVAL) if lk == "valid_ahead" else LOCK_TEXT[lk])
         before = core.snapshot(box.root)
         r = core.run_breadlog(built, box, cfg, check=(mode == "check"), shim=True)
         after = core.snapshot(box.root)
@@ -158,13 +160,13 @@ def work(job):
     if v == "c03":
         res["inconclusive"]["prerequisite C03 failed (decomposition)"] = 1
         return res
-    res["nontrivial"].append("|".join(p))
+    res["nontrivial"].append("|".join(str(x) for x in p))
     res["counters"]["points"] = 1
     for clause, detail in v:
-        uc, st, ex, lk, mode, tree = p
+        uc, st, ex, lk, mode, tree = p[:6]
         res["violations"].append({"signature": "C16.%s|use_cache=%s|structured=%s|extensions=%s|lock=%s|%s|%s" % (clause, uc, st, ex, lk, mode, tree),
                                   "detail": dict(detail, point=p, exit=r.ended()), "case": {"point": list(p)}})
-    if p in (("omitted", "omitted", "omitted", "absent", "edit", "missing"), ("false", "true", "rs+x", "corrupt", "edit", "missing")):
+    if tuple(p[:6]) in (("omitted", "omitted", "omitted", "absent", "edit", "missing"), ("false", "true", "rs+x", "corrupt", "edit", "missing")):
         res["samples"].append({"point": dict(zip(["use_cache", "structured", "extensions", "lock", "mode", "tree"], p)),
                                "expected": {k: exp[k] for k in ("cache", "structured", "exts", "scope", "nmiss", "start")},
                                "observed": obs})
@@ -223,6 +225,9 @@ def main(tier):
     core.build_shim()
     ck.built = built
     points = list(itertools.product(USE_CACHE, STRUCT, EXTS, LOCK, MODE, TREE))
+    if tier == "thorough":
+        # the same product with other cached values: exactly max+1, a large one, one close to the top of the range
+        points = points + [p + (lv,) for p in points for lv in (4, 123456, 4294967000) if p[3] == "valid_ahead"]
     for res in frame.pmap(work, [(built, p) for p in points], chunksize=8):
         ck.absorb(res)
     for res in frame.pmap(error_work, [(built, k, m) for k in ERRORS for m in MODE]):
